@@ -20,6 +20,7 @@ type Term struct {
 	// for struct: Val = type name, Fields[i] names Args[i]
 	Fields []string
 	Num    bool // numeric-typed (participates in polynomial normalisation)
+	Int    bool // integer-typed
 	Bool   bool
 	Str    bool
 }
@@ -362,6 +363,24 @@ func (e *evalCtx) cmpAtom(t *Term) (string, bool) {
 				op = "<="
 			}
 		}
+		// integer-valued polynomials: p < 0  <=>  p + 1 <= 0
+		if a.Int && b.Int && polyIntegral(np) {
+			switch op {
+			case "<":
+				np, op = np.add(polyConst(big.NewRat(1, 1)), 1), "<="
+			case ">=":
+				np, op = np.add(polyConst(big.NewRat(1, 1)), 1), ">"
+			}
+		}
+		// a length or an iteration count is never negative: x <= 0  <=>  x == 0
+		if nonNegativeAtom(np) {
+			switch op {
+			case "<=":
+				op = "=="
+			case ">":
+				op = "!="
+			}
+		}
 		ps := np.String()
 		switch op {
 		case "<":
@@ -560,6 +579,31 @@ func consistentAtoms(asg map[string]bool, changed string) bool {
 		if ok {
 			return true
 		}
+	}
+	return false
+}
+
+// polyIntegral: all coefficients are integers.
+func polyIntegral(p Poly) bool {
+	for _, t := range p {
+		if !t.c.IsInt() {
+			return false
+		}
+	}
+	return true
+}
+
+// nonNegativeAtom: the polynomial is exactly one atom (coefficient 1, no constant) that denotes a length or an iteration counter.
+func nonNegativeAtom(p Poly) bool {
+	if len(p) != 1 {
+		return false
+	}
+	for k, t := range p {
+		if k == "" || len(t.m.atoms) != 1 || t.c.Cmp(big.NewRat(1, 1)) != 0 {
+			return false
+		}
+		a := t.m.atoms[0]
+		return strings.HasPrefix(a, "call:builtin:len(") || (strings.HasPrefix(a, "sym:L") && strings.HasSuffix(a, ".I"))
 	}
 	return false
 }
